@@ -4,6 +4,40 @@ from .. import core, s4u, syncgen
 KINDS = ("mutex", "sem", "cond", "barrier", "mailbox", "exec", "async", "mess")
 
 
+def fan_programs():
+    """An actor that owns 4-12 pending asynchronous communications, each matched with a blocked peer, when it is killed or when its
+    body ends: the kernel cancels them one after the other, and the order in which the peers wake up must not depend on addresses
+    (containers keyed by pointers are the classic source of layout-dependent orders; with <= 3 elements most of them still iterate in
+    insertion order, hence the size)."""
+    from hypothesis import strategies as st
+
+    @st.composite
+    def build(draw):
+        plat = s4u.small_shared_platform()
+        hosts = [h["name"] for h in plat["hosts"]]
+        n = draw(st.integers(4, 12))
+        sends = draw(st.booleans())
+        owner = []
+        for i in range(n):
+            size = draw(st.sampled_from([1e7, 1e8, 1e9]))
+            owner.append(["put_async", i, size, {}, i] if sends else ["get_async", i, i, {}])
+        how = draw(st.sampled_from(["killed", "killed", "body-ends"]))
+        owner.append(["sleep", 1000.0 if how == "killed" else draw(st.sampled_from([0.25, 1.0, 2.0]))])
+        actors = [{"name": "a0", "host": draw(st.sampled_from(hosts)), "ops": owner}]
+        for i in range(n):
+            ops = []
+            if draw(st.integers(0, 2)) == 0:
+                ops.append(["sleep", draw(st.sampled_from([0.0, 0.125, 0.25]))])
+            ops.append(["get", i, {}] if sends else ["put", i, draw(st.sampled_from([1e7, 1e8, 1e9])), {}])
+            ops += [["lock", 0], ["sleep", 0.125], ["unlock", 0]]
+            actors.append({"name": "a%d" % (i + 1), "host": draw(st.sampled_from(hosts)), "ops": ops})
+        if how == "killed":
+            actors.append({"name": "a%d" % (n + 1), "host": draw(st.sampled_from(hosts)),
+                           "ops": [["sleep", draw(st.sampled_from([0.5, 1.0, 2.0]))], ["kill", "a0"]]})
+        return {"platform": plat, "objects": {"mailbox": n, "mutex": [{"recursive": False}]}, "actors": actors, "fan": how}
+    return build()
+
+
 class C01(core.Prop):
     id = "C01"
     drivers = ["s4u_interp"]
@@ -14,7 +48,9 @@ class C01(core.Prop):
                  "address-space layouts (ASLR on twice, ASLR off, perturbed heap/environment) must give byte-identical observation logs")
     rule = ("Programs of 2-5 actors x <=10 operations mixing sleeps, execs, blocking and asynchronous mailbox communications (sizes 0..1e5) "
             "with wait/test, message queues, mutexes, semaphores (with timeouts), condition variables and barriers, on a 3-host platform "
-            "with shared links (real sharing, latencies, one multi-pstate host). Each program is executed 3 times in forked children whose heap is shifted by different, "
+            "with shared links (real sharing, latencies, one multi-pstate host); one program in four is instead an actor that owns 4-12 pending "
+            "asynchronous communications, each matched with a blocked peer, when it is killed or when its body ends (the kernel cancels them "
+            "one by one: the wake-up order of the peers is in the log). Each program is executed 3 times in forked children whose heap is shifted by different, "
             "case-chosen amounts (all later addresses and pointer hash values differ) and, one program in five, 3 more times in brand-new "
             "processes: with ASLR, under `setarch -R`, and with a larger environment, MALLOC_PERTURB_ and MALLOC_TOP_PAD_. "
             "Oracle: all the complete observation logs (every request/response of every actor with hex-float dates and values, every "
@@ -24,7 +60,9 @@ class C01(core.Prop):
     assumptions = ["the interpreter prints no pointer and no wall-clock value; dates are printed with %a"]
 
     def strategy(self, tier):
-        return syncgen.programs(kinds=KINDS, max_actors=5, max_ops=10, platform=s4u.small_shared_platform())
+        from hypothesis import strategies as st
+        gen = syncgen.programs(kinds=KINDS, max_actors=5, max_ops=10, platform=s4u.small_shared_platform())
+        return st.integers(0, 3).flatmap(lambda k: fan_programs() if k == 0 else gen)
 
     def check(self, case):
         oc = core.Outcome()
@@ -71,6 +109,10 @@ class C01(core.Prop):
             oc.labels.append("deadlock")
         if any("exc" in l for l in recs):
             oc.labels.append("exception")
+        if case.get("fan"):
+            oc.labels.append("owner-of-many-pending-comms-" + case["fan"])
+            if sum(1 for l in recs if "exc" in l) >= 4:
+                oc.labels.append(">=4-peers-woken-by-the-cancellation")
         oc.nontrivial = same_date
         return oc
 
